@@ -294,8 +294,10 @@ def locatePs1 (sourceLines : List Str) (facts : ChunkFacts) : Except ParseError 
 
 /-- directives of the comments of one PS1 group: `Directive.extract('\n'.join(lines))` -/
 def extractDirectives (lines : List Str) : Except ParseError (List Directive) :=
-  -- `text.splitlines()` of the joined lines: the lines themselves never contain a line break
-  let isInline := !(lines.all fun l => startsWith ['#'] (strip l))
+  -- `text.splitlines()` of the joined lines: the lines themselves never contain a line break, but
+  -- one trailing empty line disappears (`'a\n'.splitlines() == ['a']`)
+  let textLines := if lines.getLast? == some [] then lines.dropLast else lines
+  let isInline := !(textLines.all fun l => startsWith ['#'] (strip l))
   match extractComments lines with
   | none => .error .indentation
   | some comments =>
